@@ -15,6 +15,7 @@ import Ptn.C19.ValueChain
 import Ptn.C19.ValuePad
 import Ptn.C19.ValueShift
 import Ptn.C19.ValueSpecial
+import Ptn.C19.ValueBinary
 /-! Property theorems for C19. Only property theorems and non-vacuity examples live here.  The leg-level
 theorems are core Lean; the value-level theorems at the end (`from_tensor_value`, `mps_chain_value`,
 `pad_bond_value`) rest on `Ptn/Common/Einsum*.lean` (single Mathlib modules). -/
@@ -1022,7 +1023,8 @@ example : (forkRun [.main [2, 3], .sub 0 [2, 2], .main [3, 2, 2]]).map (fun st =
 returns (`binary_structure`) holds every tensor untransposed (node tensor = input tensor as a labelled tensor) and
 evaluates to the sum over its record `gRecord` of the product of all node tensors.  Partial: the record is the
 model function `gRecord` of the final state, not a closed form in the heap numbering
-(`(parent (g-1)/2, leg [h>0] + [g even]) ~ (g, 0)` is what the instance below shows; not proved for all sizes). -/
+(superseded by `binary_record_closed` / `binary_value` below, which give the closed form for all sizes; kept because
+`binary_value` is derived from it). -/
 theorem binary_value_partial {R : Type} [CommSemiring R] (nphys bd d : Nat) (hn : 2 ≤ nphys) (hb : 1 ≤ bd)
     (dim : GLeg BinId → Nat) (T : BinId → List Nat → R) :
     binGenerate nphys bd d = some (binFinal nphys bd d) ∧
@@ -1045,6 +1047,66 @@ theorem binary_value_partial {R : Type} [CommSemiring R] (nphys bd d : Nat) (hn 
 example : (2 : Nat) ≤ 3 ∧ (1 : Nat) ≤ 2 ∧ gRecord (binFinal 3 2 3) =
     [((.virt 0 0, 0), (.virt 1 0, 0)), ((.virt 0 0, 1), (.phys 0, 0)),
      ((.virt 1 0, 1), (.phys 1, 0)), ((.virt 1 0, 2), (.phys 2, 0))] := by decide
+
+/-- **Binary tree: closed form of the binding record.**  For every `nphys ≥ 2`, `bd ≥ 1`, `d`: in heap (breadth-first)
+numbering `g = 0 … 2·nphys-2` of the nodes of the tree `generate_binary_ttns` returns (`binFinalId nphys g`: the virtual
+node `virtId g` for `g < nphys-1`, the site `phys (g-(nphys-1))` otherwise) the record read off the final state the way
+the library does is EXACTLY (dict order = heap order, so not only up to order) one bond per non-root node
+`g = 1 … 2·nphys-2`: `binBond nphys g` = (leg `binNbrIdx g` of the parent `(g-1)/2`) ~ (leg `0` of `g`), where
+`binNbrIdx g = [g > 2] + [g even]` is `neighbour_index(g)` evaluated on the parent node of the final state
+(its own parent leg first - absent for the root -, then the left child, then the right child), that parent being found
+in the final state and holding input axis `binNbrIdx g` at that leg. -/
+theorem binary_record_closed (nphys bd d : Nat) (hn : 2 ≤ nphys) (hb : 1 ≤ bd) :
+    binGenerate nphys bd d = some (binFinal nphys bd d) ∧
+    gRecord (binFinal nphys bd d) = (List.range' 1 (2 * nphys - 2)).map (binBond nphys) ∧
+    ∀ g, 1 ≤ g → g ≤ 2 * nphys - 2 →
+      binBond nphys g = ((virtId ((g - 1) / 2), binNbrIdx g), (binFinalId nphys g, 0)) ∧
+      binNbrIdx g = (if g ≤ 2 then 0 else 1) + (if g % 2 = 0 then 1 else 0) ∧
+      gFind (binFinal nphys bd d) (virtId ((g - 1) / 2)) = some (binVNode nphys bd ((g - 1) / 2)) ∧
+      (binVNode nphys bd ((g - 1) / 2)).nbrPos (binFinalId nphys g) = binNbrIdx g ∧
+      (binVNode nphys bd ((g - 1) / 2)).lab (binNbrIdx g) = (virtId ((g - 1) / 2), binNbrIdx g) := by
+  refine ⟨(binary_structure nphys bd d hn hb).1, gRecord_binFinal nphys bd d hn, fun g h1 h2 => ?_⟩
+  have hp : (g - 1) / 2 < nphys - 1 := by omega
+  exact ⟨rfl, rfl, binFinal_find_virt nphys bd d _ hp, binVNode_nbrPos nphys bd _ g hp (by omega),
+    binVNode_lab _ _ _ _ (binNbrIdx_lt g)⟩
+
+/-- `nphys = 3` (hypotheses `2 ≤ 3`, `1 ≤ 2`): the closed form written out -/
+example : (2 : Nat) ≤ 3 ∧ (1 : Nat) ≤ 2 ∧ (List.range' 1 (2 * 3 - 2)).map (binBond 3) =
+    [((.virt 0 0, 0), (.virt 1 0, 0)), ((.virt 0 0, 1), (.phys 0, 0)),
+     ((.virt 1 0, 1), (.phys 1, 0)), ((.virt 1 0, 2), (.phys 2, 0))] := by decide
+
+/-- `nphys = 5` (not a power of two, three levels): model record and closed form computed independently agree -/
+example : gRecord (binFinal 5 2 3) = (List.range' 1 (2 * 5 - 2)).map (binBond 5) := by decide
+
+/-- **Binary tree, value level.**  For every `nphys ≥ 2`, `bd ≥ 1`, `d`, all input tensors `T id` (functions of the
+index list in the order of the axes of the array handed in), all dimensions, every commutative semiring:
+`generate_binary_ttns` completes, holds every tensor untransposed (node tensor = input tensor as a labelled tensor), and
+the network evaluates to the sum over the `2·nphys-2` bonds of `binary_record_closed` (one common index per non-root
+heap node `g`: parent `(g-1)/2`'s leg `neighbour_index(g)` ~ leg 0 of `g`) of the product over the heap nodes
+`g = 0 … 2·nphys-2` of `T_g[axes in input order]` (`binRank`: 3 axes for the root, 4 for the other virtual nodes, 2 for
+the sites). -/
+theorem binary_value {R : Type} [CommSemiring R] (nphys bd d : Nat) (hn : 2 ≤ nphys) (hb : 1 ≤ bd)
+    (dim : GLeg BinId → Nat) (T : BinId → List Nat → R) :
+    binGenerate nphys bd d = some (binFinal nphys bd d) ∧
+    (∀ x ∈ binFinal nphys bd d, gModelLeaf T x = gSiteLeaf T x.id x.dims.length) ∧
+    ∀ σ, netValue dim (gRecord (binFinal nphys bd d)) ((binFinal nphys bd d).map (gModelLeaf T)) σ =
+      sumPairs dim ((List.range' 1 (2 * nphys - 2)).map (binBond nphys))
+        (fun τ => prodL ((List.range (2 * nphys - 1)).map fun g =>
+          T (binFinalId nphys g) ((List.range (binRank nphys g)).map fun a => τ (binFinalId nphys g, a)))) σ := by
+  obtain ⟨h1, h2, h3⟩ := binary_value_partial nphys bd d hn hb dim T
+  refine ⟨h1, h2, fun σ => ?_⟩
+  rw [h3 σ, gRecord_binFinal nphys bd d hn]
+  have hprod : ∀ τ : Asg (GLeg BinId), (binFinal nphys bd d).map (fun x =>
+      T x.id ((List.range x.dims.length).map fun a => τ (x.id, a))) =
+      (List.range (2 * nphys - 1)).map fun g =>
+        T (binFinalId nphys g) ((List.range (binRank nphys g)).map fun a => τ (binFinalId nphys g, a)) :=
+    fun τ => binFinal_heap nphys bd d hn (fun i r => T i ((List.range r).map fun a => τ (i, a)))
+  simp only [hprod]
+
+/-- `nphys = 3`: the five factors are the root (3 axes), one inner virtual node (4 axes) and three sites (2 axes) -/
+example : (2 : Nat) ≤ 3 ∧ (1 : Nat) ≤ 2 ∧
+    (List.range (2 * 3 - 1)).map (fun g => (binFinalId 3 g, binRank 3 g)) =
+      [(.virt 0 0, 3), (.virt 1 0, 4), (.phys 0, 2), (.phys 1, 2), (.phys 2, 2)] := by decide
 
 /-- **Product states.**  A network (any shape: any binding record with distinct legs, positive bond dimensions - also
 zero-padded, larger ones) in which every node tensor is `v_i[open legs] · (1 where all of the node's bond indices
